@@ -318,7 +318,7 @@ def check_c08(tier):
     run_shards(res, "C08", "c08_symbols", exe, "c08", tier, 16, cases)
     res.required_classes = ["scheme_tagged", "scheme_raw", "second_block", "components_4", "maxbits_25_32"]
     return finish("C08", tier, res, t0,
-                  assumptions=["magnitudes above 2^22 (quick) / 2^27 (thorough) are not generated for the forced raw "
+                  assumptions=["magnitudes above 2^22 (quick) / 2^24 (thorough) are not generated for the forced raw "
                                "scheme (the raw coder allocates O(max value) counters); counted",
                                "lengths up to 5000 (quick) / 100000 (thorough)"])
 
